@@ -50,11 +50,7 @@ impl RemoteInitiated {
 //@| ensures ri_close_counts(old(self).abs(), final(self).abs()),
 
 //@ splice-fn quic/s2n-quic-transport/src/stream/controller/remote_initiated.rs "RemoteInitiated" on_remote_open_stream vis=strip "subst=transport::Error=>TransportError"
-//@| requires ri_inv(old(self).abs()),
-//@|     // OBSERVATION (outside the listed properties): with advertised == 2^60 -- reachable only through the
-//@|     // extreme but permitted configuration max_open_remote_*_streams = 2^60 -- StreamId::nth(.., 2^60) is None
-//@|     // and the `.expect(..)` below panics.  The contract therefore needs advertised < 2^60.
-//@|     old(self).abs().advertised < max_streams_max(),
+//@| requires ri_inv(old(self).abs()), stream_id.0.wf(),
 //@| ensures
 //@|     ri_remote_open_err_iff_at_or_over_limit(old(self).abs(), (stream_id.0.0 / 4) as int, ret is Ok),
 //@|     ri_remote_open_err_code(ret is Ok, (if ret is Err { ret->Err_0.code as int } else { 0int })),
